@@ -21,11 +21,18 @@ inductive Stmt
   | sendCloseIQ        -- c.s.SendIQElement(close)           (fallible: send failure, deadline)
   | closeResp          -- respReadCloser.Close()
   | other              -- anything that neither returns nor touches the receiving side
+  | earlyReturn        -- `if <condition> { return nil }`: the routine may stop here without an error
+                       -- (e.g. the write side is busy); the deferred calls run
   deriving DecidableEq, Repr
 
 def Stmt.fallible : Stmt → Bool
   | .flush | .encClose | .sendCloseIQ => true
   | _ => false
+
+/-- a point where the routine may return: with an error (fallible statements) or without one -/
+def Stmt.mayReturn : Stmt → Bool
+  | .earlyReturn => true
+  | st => st.fallible
 
 structure CState where
   closedFlag : Bool := false      -- c.closed
@@ -47,11 +54,13 @@ def Stmt.waits : Stmt → Bool
   | .flush | .encClose | .sendCloseIQ | .closeResp => true
   | _ => false
 
-/-- execute the program; `fault = some k`: the statement at position `k` fails (if it can) -/
+/-- execute the program; `fault = some k`: the statement at position `k` fails (if it can), or —
+an `earlyReturn` — takes its return -/
 def exec (fault : Option Nat) : List Stmt → Nat → CState → CState
   | [], _, s => ret s
   | st :: rest, k, s =>
     if st.fallible && fault == some k then ret { s with failed := true }
+    else if st == .earlyReturn && fault == some k then ret s
     else
       let s := if st.waits then { s with upAtWaits := s.upAtWaits && s.registered && !s.rxClosed } else s
       let s' := match st with
@@ -78,7 +87,8 @@ def receivesWhileWaiting (p : List Stmt) : Bool :=
 def closeProgram : List Stmt :=
   [.setClosed, .deferCloseRead, .flush, .encClose, .other, .sendCloseIQ, .closeResp]
 
-def closeNoNotifyProgram : List Stmt := [.setClosed, .deferCloseRead, .flush, .encClose]
+def closeNoNotifyProgram : List Stmt :=
+  [.setClosed, .deferCloseRead, .earlyReturn, .other, .other, .other, .flush, .encClose]
 
 /-- names used by the fact extractor (`harness/c15/facts.go`) -/
 def parseStmt (s : String) : Option Stmt :=
@@ -86,7 +96,7 @@ def parseStmt (s : String) : Option Stmt :=
   else if s = "closeReadNow" then some .closeReadNow else if s = "flush" then some .flush
   else if s = "encClose" then some .encClose else if s = "sendCloseIQ" then some .sendCloseIQ
   else if s = "closeResp" then some .closeResp else if s = "other" then some .other
-  else if s = "unregister" then some .unregister else none
+  else if s = "unregister" then some .unregister else if s = "earlyReturn" then some .earlyReturn else none
 
 def parseProgram : List String → Option (List Stmt)
   | [] => some []
